@@ -21,7 +21,7 @@ CASE_TIMEOUT = 60
 WALL = {"quick": 900, "thorough": 7200}
 REQUIRED = {"graphs_compared": 2000, "fasta": 300, "ig": 300, "txt": 300, "seq_list": 200, "gen_seq_specs": 300,
             "circular": 60, "single_residue": 30, "json_round_trips": 300, "connect_records": 200, "termini_renamed": 100,
-            "labels": 100, "letters_seen": 30, "json_labelled_edges": 300, "fasta_with_further_records": 50, "no_trailing_newline": 200, "multi_edge_connect_records": 50}
+            "labels": 100, "letters_seen": 30, "json_labelled_edges": 300, "fasta_with_further_records": 50, "file_macro_uses": 100, "no_trailing_newline": 200, "multi_edge_connect_records": 50}
 DNA = {"A": "DA", "C": "DC", "G": "DG", "T": "DT"}
 RNA = {"A": "A", "C": "C", "G": "G", "T": "U", "U": "U"}       # uracil is written U in RNA files (T is tolerated)
 AA = {"G": "GLY", "A": "ALA", "V": "VAL", "C": "CYS", "P": "PRO", "L": "LEU", "I": "ILE", "M": "MET", "W": "TRP",
@@ -247,13 +247,51 @@ def run_genseq(cid, rng, workdir, res):
         rn = rng.choice(["PEO", "PS", "NR3", "P3HT"])
         macros[tag] = (levels, b, rn)
         mstrings.append("%s:%d:%d:%s-1.0" % (tag, levels, b, rn))
-    seqtags = [rng.choice(sorted(macros)) for _ in range(rng.randint(1, 5))]
+    # a macro taken from a molecule definition in a file (-from_file tag:molecule -f file): its residue graph
+    file_macros = {}
+    kw_file = {}
+    if rng.random() < 0.4:
+        tag = "F"
+        k_ = rng.randint(1, 6)
+        rnames = [rng.choice(["PEO", "PS", "GLY", "X1"]) for _ in range(k_)]
+        redges = [(i, i + 1) for i in range(k_ - 1)] if rng.random() < 0.5 else [(rng.randrange(i), i) for i in range(1, k_)]
+        if k_ >= 4 and rng.random() < 0.3:
+            extra_e = tuple(sorted(rng.sample(range(k_), 2)))
+            if extra_e not in redges:
+                redges.append(extra_e)
+        L, bonds_, firsts, idx = ["[ moleculetype ]", "FRG 1", "[ atoms ]"], [], [], 1
+        for ri, rn_ in enumerate(rnames):
+            firsts.append(idx)
+            na_ = rng.randint(1, 2)
+            for j in range(na_):
+                L.append("%d P1 %d %s A%d %d 0.0 72.0" % (idx + j, ri + 1, rn_, j, idx + j))
+            if na_ == 2:
+                bonds_.append("%d %d 1 0.3 1000" % (idx, idx + 1))
+            idx += na_
+        for a_, b_ in redges:
+            bonds_.append("%d %d 1 0.35 1000" % (firsts[a_] + rng.randrange(1), firsts[b_]))
+        L += ["[ bonds ]"] + bonds_
+        (Path(workdir) / "frag.itp").write_text("\n".join(L) + "\n")
+        file_macros[tag] = (rnames, redges)
+        kw_file = {"from_file": ["%s:FRG" % tag], "inpath": [Path(workdir) / "frag.itp"]}
+        bump(res, "file_macros")
+    seqtags = [rng.choice(sorted(macros) + sorted(file_macros) * 2) for _ in range(rng.randint(1, 5))]
     # expected assembled graph
     names, edges, seqid, first = [], set(), [], []
     for si, tag in enumerate(seqtags):
+        base = len(names)
+        if tag in file_macros:
+            rnames, redges = file_macros[tag]
+            first.append((base, len(rnames)))
+            for rn_ in rnames:
+                names.append(rn_)
+                seqid.append(si)
+            for a_, b_ in redges:
+                edges.add(frozenset((base + a_ + 1, base + b_ + 1)))
+            bump(res, "file_macro_uses")
+            continue
         levels, b, rn = macros[tag]
         nn = sum(b ** l for l in range(levels))
-        base = len(names)
         first.append((base, nn))
         for k in range(nn):
             names.append(rn)
@@ -309,14 +347,16 @@ def run_genseq(cid, rng, workdir, res):
                 node_labels.setdefault(first[si][0] + k + 1, {})["chiral"] = val
             bump(res, "labels")
     out = Path(workdir) / "seq.json"
-    spec = {"seq": seqtags, "macro_strings": mstrings, "connects": connects, "modifications": mods, "tags": tags}
+    spec = {"seq": seqtags, "macro_strings": mstrings, "connects": connects, "modifications": mods, "tags": tags,
+            "file_macros": {k: [v[0], v[1]] for k, v in file_macros.items()}}
     bump(res, "gen_seq_specs")
     res["sig"] = sig_of(spec)
     res["sample"] = spec
     res["nontrivial"] = len(names) >= 2
     w = {"spec": spec}
     try:
-        gen_seq(name="t", outpath=out, seq=seqtags, macro_strings=mstrings, connects=connects, modifications=mods, tags=tags)
+        gen_seq(name="t", outpath=out, seq=seqtags, macro_strings=mstrings, connects=connects, modifications=mods, tags=tags,
+                **kw_file)
     except Exception as err:      # noqa
         if type(err).__name__ == "CaseTimeout":
             raise
